@@ -9,6 +9,11 @@
      i<n>    hand the next n encoder-stream BYTES to Decoder::on_encoder_recv (after the unconsumed tail of earlier calls)
      k<n>    hand the next n decoder-stream BYTES to Encoder::on_decoder_recv (after the unconsumed tail of earlier calls)
      C<sid>  the decoder abandons the stream (its sections are done) and queues a StreamCancel;   Z<n>  encoder::set_dynamic_table_size
+     H<eic>.<sign>.<delta>:<rep>;<rep>...   (qx only) a hand-made field section (Encoded Insert Count, sign, Delta Base, representations
+             S<i> D<i> P<i> LS<i>=<hex> LD<i>=<hex> LP<i>=<hex> LL<hex>=<hex>) is handed to Decoder::decode_header; nothing is recorded.
+             The word is B:w<wire bytes>:<result as for b>
+     J<instr>   (qx only) a hand-made encoder-stream instruction (Z<n> U<i> IS<i>=<hex> ID<i>=<hex> IL<hex>=<hex>) is appended to the
+             encoder stream; the word is J:<wire bytes>
    one word per op is printed; the spec column has one word per op ('*' = unconstrained)
    hp.new R B T M / hp.get EIC S D T M / vas.* : the index arithmetic alone
    qp.e CAP HEX CUTS                 raw encoder-stream bytes handed in pieces (CUTS = dot list of piece sizes, `-` = one piece; what is
@@ -97,6 +102,44 @@ let parse_op s =
   | 'k' -> BFeedbackBytes (n_of_string rest)
   | _ -> failwith "op"
 
+(* hand-made sections and instructions (qx) *)
+type xop = XB of bop | XHostile of hblock | XInject of einstr
+let starts s p = String.length s >= String.length p && String.sub s 0 (String.length p) = p
+let after s k = String.sub s k (String.length s - k)
+let idx_val s k =                       (* "<prefix of k chars><i>=<hex>" *)
+  let r = after s k in
+  match String.index_opt r '=' with
+  | Some i -> (n_of_string (String.sub r 0 i), unhx (String.sub r (i + 1) (String.length r - i - 1)))
+  | None -> failwith "rep"
+let parse_rep s =
+  if starts s "LS" then let (i, v) = idx_val s 2 in BLitStaticName (i, v)
+  else if starts s "LD" then let (i, v) = idx_val s 2 in BLitDynName (i, v)
+  else if starts s "LP" then let (i, v) = idx_val s 2 in BLitPostName (i, v)
+  else if starts s "LL" then let (n, v) = parse_field (after s 2) in BLiteral (n, v)
+  else if starts s "S" then BIndexedStatic (n_of_string (after s 1))
+  else if starts s "D" then BIndexedDyn (n_of_string (after s 1))
+  else if starts s "P" then BIndexedPost (n_of_string (after s 1))
+  else failwith "rep"
+let parse_instr s =
+  if starts s "IS" then let (i, v) = idx_val s 2 in IInsertStatic (i, v)
+  else if starts s "ID" then let (i, v) = idx_val s 2 in IInsertDyn (i, v)
+  else if starts s "IL" then let (n, v) = parse_field (after s 2) in IInsertLit (n, v)
+  else if starts s "Z" then ISizeUpdate (n_of_string (after s 1))
+  else if starts s "U" then IDuplicate (n_of_string (after s 1))
+  else failwith "instr"
+let parse_xop s =
+  match s.[0] with
+  | 'H' ->
+      let rest = after s 1 in
+      let i = String.index rest ':' in
+      (match String.split_on_char '.' (String.sub rest 0 i) with
+       | [e; sg; d] ->
+           let reps = List.map parse_rep (split_on ';' (after rest (i + 1))) in
+           XHostile ({ hp_eic = n_of_string e; hp_sign = (sg = "1"); hp_delta = n_of_string d }, reps)
+       | _ -> failwith "prefix")
+  | 'J' -> XInject (parse_instr (after s 1))
+  | _ -> XB (parse_op s)
+
 let rec take k l = if k = 0 then [] else match l with [] -> [] | x :: r -> x :: take (k - 1) r
 
 let run_qs cap blocked ops =
@@ -108,8 +151,32 @@ let run_qs cap blocked ops =
     let resized = ref false in
     let out = Buffer.create 256 and spec = Buffer.create 256 in
     let stop = ref false in
-    List.iter (fun o ->
-      if not !stop then begin
+    let hexw r = (match r with Ok b -> if b = [] then "-" else hx b | Err _ -> "wire-err" | Panic _ -> "wire-panic") in
+    List.iter (fun xo ->
+      if not !stop then match xo with
+      | XHostile blk ->
+          (* a hand-made section: Decoder::decode_header on the current decoder table; nothing is recorded *)
+          let w = (match dec_decode_header !bs.b_sys.s_dec blk with
+                   | Ok (fs, dr) -> Printf.sprintf "ok:%s:%d:-" (fieldsstr fs) (if dr then 1 else 0)
+                   | Err e -> dec_err_word e
+                   | Panic _ -> stop := true; "panic") in
+          Buffer.add_string out (if w = "panic" then "B:panic" else Printf.sprintf "B:w%s:%s" (hexw (wire_block blk)) w);
+          Buffer.add_char out ' ';
+          let sw = if !resized then "*" else
+            (match !rd with
+             | Some d -> (match rfc_section d cap blk with
+                          | RfcOk fs -> "B:ok:" ^ fieldsstr fs
+                          | RfcBlocked n -> "B:blocked:" ^ sn n
+                          | RfcError -> "B:err")
+             | None -> "B:specerr") in
+          Buffer.add_string spec sw; Buffer.add_char spec ' '
+      | XInject i ->
+          let b = !bs in
+          let s = b.b_sys in
+          bs := { b with b_sys = { s with s_eq = s.s_eq @ [i] } };
+          Buffer.add_string out ("J:" ^ hexw (wire_einstr i)); Buffer.add_char out ' ';
+          Buffer.add_string spec "* "
+      | XB o -> begin
         let before = !bs.b_sys in
         let (b1, r) = bstep !bs o in
         bs := b1;
@@ -270,7 +337,7 @@ let run_qpd cap blocked eops bytes cuts =
 let vres = function Ok x -> "ok " ^ sn x | Err _ -> "err" | Panic _ -> "panic"
 let handle ws = match ws with
   | [("qs" | "qz" | "qx" | "qc"); cap; blocked; ops] ->
-      run_qs (n_of_string cap) (n_of_string blocked) (List.map parse_op (split_on ',' ops))
+      run_qs (n_of_string cap) (n_of_string blocked) (List.map parse_xop (split_on ',' ops))
   | ["qp.e"; cap; h; cuts] -> run_qpe (n_of_string cap) (if h = "-" then [] else bytes_of_hex h) cuts
   | ["qp.d"; cap; blocked; eops; h; cuts] ->
       run_qpd (n_of_string cap) (n_of_string blocked) eops (if h = "-" then [] else bytes_of_hex h) cuts
